@@ -221,11 +221,11 @@ Ltac ev1 :=
   match goal with
   | |- context [eval ?c ?e ?l ?w] =>
       let r := eval cbv [eval eval_list assign bindr fst snd alookup aset String.eqb Ascii.eqb Bool.eqb truthy bool_val negb andb orb
-       arith val_eq get_field set_field get_vec heap globs streams wtrace set_heap set_globs
+       arith heap globs streams wtrace set_heap set_globs
        ity_signed Nat.eqb alloc] in (eval c e l w) in change (eval c e l w) with r
   | |- context [assign ?c ?lv ?v ?l ?w] =>
       let r := eval cbv [eval eval_list assign bindr fst snd alookup aset String.eqb Ascii.eqb Bool.eqb truthy bool_val negb andb orb
-       arith val_eq get_field set_field get_vec heap globs streams wtrace set_heap set_globs
+       arith heap globs streams wtrace set_heap set_globs
        ity_signed Nat.eqb alloc] in (assign c lv v l w) in change (assign c lv v l w) with r
   end.
 
@@ -238,10 +238,46 @@ Ltac callstep prg :=
       lazymatch o with
       | None =>
           let b := eval cbv [builtin external pop_stream bindr fst snd alookup aset String.eqb Ascii.eqb Bool.eqb
-                             get_vec heap globs streams wtrace set_heap Nat.eqb
+                             heap globs streams wtrace set_heap Nat.eqb
                              alloc] in (builtin f args w) in
           change (mk_call p r f args w) with b
       end
+  end.
+
+(* the helpers that look into the heap are evaluated as a whole, and only when they compute to a result
+   (when the object they need is behind a symbolic index the proof rewrites with one of the lemmas below) *)
+Lemma get_field_rec w b fs f :
+  nth_error (heap w) b = Some (ORec fs) ->
+  get_field w (VPtr b 0) f = match alookup f fs with Some x => Fine x | None => Stuck ("no field " ++ f)%string end.
+Proof. intro H. unfold get_field. rewrite H. reflexivity. Qed.
+Lemma set_field_rec w b fs f x :
+  nth_error (heap w) b = Some (ORec fs) ->
+  set_field w (VPtr b 0) f x = Fine (set_heap (list_set b (ORec (aset f x fs)) (heap w)) w).
+Proof. intro H. unfold set_field. rewrite H. reflexivity. Qed.
+Lemma get_vec_vec w b l :
+  nth_error (heap w) b = Some (OVec l) -> get_vec w (VPtr b 0) = Fine (b, l).
+Proof. intro H. unfold get_vec. rewrite H. reflexivity. Qed.
+
+Lemma val_eq_int x y : val_eq (VInt x) (VInt y) = Fine (x =? y).
+Proof. destruct x, y; reflexivity. Qed.
+
+Ltac is_result t := lazymatch t with Fine _ => idtac | Stuck _ => idtac end.
+Ltac hstep :=
+  match goal with
+  | |- context [get_field ?w ?v ?f] =>
+      let r := eval cbv [get_field nth_error heap alookup String.eqb Ascii.eqb Bool.eqb] in (get_field w v f) in
+      is_result r; change (get_field w v f) with r
+  | |- context [set_field ?w ?v ?f ?x] =>
+      let r := eval cbv [set_field nth_error heap set_heap globs streams wtrace list_set aset String.eqb Ascii.eqb Bool.eqb] in (set_field w v f x) in
+      is_result r; change (set_field w v f x) with r
+  | |- context [get_vec ?w ?v] =>
+      let r := eval cbv [get_vec nth_error heap] in (get_vec w v) in
+      is_result r; change (get_vec w v) with r
+  | |- context [cstring ?w (VLit ?l)] => change (cstring w (VLit l)) with (@Fine (list Z) l)
+  | |- context [val_eq (VInt ?x) (VInt ?y)] => rewrite (val_eq_int x y)
+  | |- context [val_eq ?a ?b] =>
+      let r := eval cbv [val_eq Nat.eqb String.eqb Ascii.eqb Bool.eqb andb] in (val_eq a b) in
+      is_result r; change (val_eq a b) with r
   end.
 
 Ltac exhead :=
@@ -265,5 +301,5 @@ Ltac ctidy := repeat (progress (cbn [bindr fst snd truthy bool_val negb andb orb
               rewrite ?truthy_if.
 (* a condition on symbolic data is waiting: the proof has to decide it before the run goes on *)
 Ltac has_if := match goal with |- ?L = _ => match L with context [if ?c then _ else _] => lazymatch c with truthy _ => fail | _ => idtac end end end.
-Ltac sstep prg := tryif has_if then fail else (first [ callstep prg | ev1 | exhead ]; ctidy).
+Ltac sstep prg := tryif has_if then fail else (first [ hstep | callstep prg | ev1 | exhead ]; ctidy).
 Ltac srun prg := ctidy; repeat (sstep prg).
